@@ -20,7 +20,9 @@ these records following the documented meaning of the to_dict options.
 
 Drivers: numbers/JSON views, dictionary views and lookups, alignment of DNAs
 handed out by the library, literal values of every form in the dictionary
-views (drv_literal_forms), search operators over the matrix of multi-choice
+views, long literals and free-text custom values (drv_literal_forms),
+specifications derived from hyper values, whose literal texts the library makes
+up (drv_hyper_specs), search operators over the matrix of multi-choice
 kinds with mutation aimed at every decision point (drv_operator_matrix), and
 the history of the DNA object before a successful use_spec: refused bindings
 that were repaired, edits of bound DNAs, other specs first, children that are
@@ -48,6 +50,37 @@ from bounded.c11_enumeration import (
     occurrences, plan_of, plan_src, shape, src, tkey, why_not_dp, wit)
 
 PROP = 'C12'
+
+
+class XS(str):
+  """A str written as a short expression (`'a' * 130`): its repr is that
+  expression (unbracketed: only used between commas, brackets and `==`), so specification sources, keys and witnesses that mention a long
+  literal stay far below the size limit of a recorded witness.  The library
+  never sees this class: specifications are built by evaluating the source."""
+
+  def __new__(cls, expr):
+    self = super().__new__(cls, eval(expr))  # pylint: disable=eval-used
+    self.expr = expr
+    return self
+
+  def __repr__(self):
+    return self.expr
+
+
+class XI(int):
+  """An int written as a short expression (`10 ** 130`), see XS."""
+
+  def __new__(cls, expr):
+    self = super().__new__(cls, eval(expr))  # pylint: disable=eval-used
+    self.expr = expr
+    return self
+
+  def __repr__(self):
+    return self.expr
+
+  __str__ = int.__repr__
+  __format__ = int.__format__
+
 
 KEY_TYPES = ['id', 'name_or_id', 'dna_spec']
 VALUE_TYPES = ['value', 'dna', 'choice', 'literal', 'choice_and_literal']
@@ -89,6 +122,11 @@ def named_specs():
       # float decisions whose text needs 17 digits / an exponent
       SP(FL(0.1 + 0.2, 4.0 / 3.0, 'g'), FL(1e-07, 3e-07), leaf(2)),
       SP(ONE([SP(FL(-1e+20, 1.5e+20)), C]), FL(-2.0 / 3.0, 2.5e-300)),
+      # names and literal values longer than any display width
+      SP(leaf(3, name=XS("'n' * 130"),
+              lits=(XS("'u' * 121"), 'v', XS("'Block(' + 'w, ' * 60 + ')'"))),
+         CH(2, [C, SP(FL(0.0, 1.0, XS("'f' * 200"))), C], False, False,
+            name=XS("'m' * 121"))),
   ]
 
 
@@ -108,12 +146,24 @@ def sample_members(m, cap, r):
   return [mem[0], mem[-1]] + r.sample(mem[1:-1], cap - 2)
 
 
+def duplicate_literals(m):
+  """True if some Choices of the model shows one literal for two candidates."""
+  if m[0] == 'space':
+    return any(duplicate_literals(e) for e in m[1])
+  if m[0] == 'choices':
+    if m[6] is not None and len(set(m[6])) < len(m[6]):
+      return True
+    return any(duplicate_literals(c) for c in m[2])
+  return False
+
+
 def int_literals(m):
   """True if some Choices of the model has an int literal value."""
   if m[0] == 'space':
     return any(int_literals(e) for e in m[1])
   if m[0] == 'choices':
-    if m[6] is not None and any(type(v) is int for v in m[6]):  # pylint: disable=unidiomatic-typecheck
+    if m[6] is not None and any(
+        isinstance(v, int) and not isinstance(v, bool) for v in m[6]):
       return True
     return any(int_literals(c) for c in m[2])
   return False
@@ -245,6 +295,9 @@ def fmt_value(rec, value_type):
     return f'{v}/{n}'
   if value_type == 'literal':
     return lits[v]
+  # documented form: '<index>/<num_candidates> (<literal>)'
+  if isinstance(lits[v], (XS, XI)):
+    return XS(f"'{v}/{n} (%s)' % ({lits[v]!r})")
   return f'{v}/{n} ({lits[v]})'
 
 
@@ -506,9 +559,13 @@ def check_dict_content(rec, m, spec, t, d, rs, combos, tag=''):
              wit(m, f'd = {bind_src(t)}\n' + wtxt))
 
 
+DUP_ID = 'from_dict/roundtrip/value=literal/duplicate-literal-values'
+
+
 def check_dict_roundtrip(rec, m, spec, t, d, combos, tag=''):
   key0 = (src(m), t)
   ints = int_literals(m)
+  dup = duplicate_literals(m)
   for kt, vt, mkk, inc in combos:
     kw = ', use_ints_as_literals=True' if (vt == 'literal' and ints) else ''
     call = (f'd.to_dict(key_type={kt!r}, value_type={vt!r}, '
@@ -522,7 +579,8 @@ def check_dict_roundtrip(rec, m, spec, t, d, combos, tag=''):
     except Exception as e:  # pylint: disable=broad-except
       ok, back = False, None
       msg = f'from_dict({call}) raised {type(e).__name__}: {e}'[:400]
-    rec.case(f'from_dict/roundtrip/value={vt}{tag}' if tag else
+    rec.case(DUP_ID if dup and vt == 'literal' else
+             f'from_dict/roundtrip/value={vt}{tag}' if tag else
              f'from_dict/roundtrip/key={kt}/value={vt}/multi={mkk}',
              (key0, kt, mkk, inc), ok, msg, wit(
                  m, f'd = {bind_src(t)}\n'
@@ -638,7 +696,8 @@ def check_lookups(rec, m, spec, t, d, rs):
 def drv_numbers_and_json(tier, seed):
   rec = Recorder(
       PROP, 'to_numbers / from_numbers / nested numbers / JSON are lossless',
-      scope=('16 named/literal/conditional/float/custom specs + 32 hand-picked '
+      scope=('17 named/literal/conditional/float/custom specs (one with names '
+             'and literals of more than 120 characters) + 32 hand-picked '
              '+ 6 (thorough 60) seeded random conditional specs of weight<=4; '
              'specs (multi-element roots, inlined multi-choices, depth<=3, bare '
              'decision-point roots); members: all up to a cap (quick 8, '
@@ -986,6 +1045,31 @@ LITERAL_FORMS = [
     ('str-number-looking', ('1', '0.5', '-2')),
     ('str-unicode-control', ('é日本', 'a\nb', '\t')),
     ('str-fraction-looking', ('1/2', '1/4', '3/4')),
+    # length classes: a literal is data, however long it is
+    ('str-length-119-120-121',
+     (XS("'a' * 119"), XS("'b' * 120"), XS("'c' * 121"))),
+    ('str-long', (XS("'x' * 130"),
+                  XS("'S(\\n' + 'C,\\n' * 40 + ')'"),
+                  XS("'z' * 999"))),
+    ('str-long-common-prefix',
+     (XS("'p' * 150 + '1'"), XS("'p' * 150 + '2'"), XS("'p' * 150 + '3'"))),
+    # a literal that looks like the shortened form of another one
+    ('str-ellipsis-lookalike',
+     (XS("'a' * 117 + '...'"), XS("'a' * 130"), '...')),
+    ('int-huge', (XI('10 ** 130'), XI('-10 ** 125'), 7)),
+    # two candidates showing the same literal: the 'literal' style cannot tell
+    # them apart (own case id), every other style must
+    ('duplicate-values', ('a', 'a', 'b')),
+]
+
+# Values of custom decision points are free text.
+CUSTOM_VALUE_FORMS = [
+    ('empty', ''),
+    ('long', 'Layer(' + 'k=3, ' * 23 + ')'),
+    ('choice-looking', '1/2'),
+    ('choice-and-literal-looking', '0/2 (p)'),
+    ('unicode-control', 'é\n\t日本'),
+    ('number-looking', '3'),
 ]
 
 LITERAL_VALUE_TYPES = ['choice', 'literal', 'choice_and_literal']
@@ -1007,11 +1091,15 @@ def literal_specs(lits):
 def drv_literal_forms(tier, seed):
   rec = Recorder(
       PROP, 'dictionary views with literal values of every form are lossless',
-      scope=('12 classes of literal values (floats needing 17 digits / an '
+      scope=('18 classes of literal values (floats needing 17 digits / an '
              'exponent / a 7th decimal, negative, zero and integral floats, '
              'small, negative and large ints, mixed types, strings with '
              'brackets and slashes, whitespace / empty, number looking, '
-             'unicode / control characters, fraction looking) x 2 specs '
+             'unicode / control characters, fraction looking, strings of 119 '
+             '/ 120 / 121 characters, long (130..999 characters, multi-line), '
+             'long with a common prefix of 150 characters, ending in an '
+             'ellipsis like a shortened form of another literal, ints of more '
+             'than 120 digits, one literal shown for two candidates) x 2 specs '
              '(non-distinct named multi-choice; conditional + nested + sorted '
              'multi-choice) x members (quick 3, thorough 16 per spec): '
              'to_dict content and from_dict round trip under 3 key types x '
@@ -1019,7 +1107,12 @@ def drv_literal_forms(tier, seed):
              'multi_choice_key x include_inactive (quick: content under one '
              'include_inactive setting per member; round trip under every key '
              'type x value type with one (multi key, inactive) pair per '
-             'member); parameters() / from_parameters round trip'))
+             'member); parameters() / from_parameters round trip.  Values of '
+             'custom decision points (free text): 6 classes (empty, 122 '
+             'characters, choice looking, choice-and-literal looking, unicode '
+             '/ control, number looking) x custom point at the root / inside '
+             'a candidate: numbers, JSON, to_dict content (45 combinations) '
+             'and from_dict round trip (quick 13 combinations, thorough 90)'))
   r = rng(seed, 'c12.literals')
   cap = 3 if tier == 'quick' else 16
   t0 = time.process_time()
@@ -1062,6 +1155,146 @@ def drv_literal_forms(tier, seed):
                        m, f'd = {bind_src(t)}\n'
                        f'x = D.from_parameters(dict({call}), spec, '
                        f'use_literal_values={use_lit})\nassert x == d, x'))
+  # ---- values of custom decision points: free text of every form ----------
+  # (one occurrence of the value per DNA keeps the witnesses short)
+  cms = [SP(CU('c1'), leaf(2, lits=('p', 'q'))),      # at the root
+         SP(ONE([SP(CU()), C]), leaf(2))]             # inside a candidate
+  cspecs = [build(cm) for cm in cms]
+  for form, val in CUSTOM_VALUE_FORMS:
+    if time.process_time() - t0 > budget:
+      break
+    tag = f'/custom-value={form}'
+    for j, t in enumerate([(None, ((val, ()), (1, ()))),
+                           (None, ((0, ((val, ()),)), (0, ())))]):
+      cm, cspec = cms[j], cspecs[j]
+      try:
+        d = mk(t).use_spec(cspec)
+      except Exception as e:  # pylint: disable=broad-except
+        rec.case(f'use_spec/accepts{tag}', (src(cm), t), False,
+                 f'use_spec refused {t!r}: {type(e).__name__}: {e}'[:300],
+                 wit(cm, bind_src(t)))
+        continue
+      rs, _ = records(cm, cspec, t, d)
+      check_numbers(rec, cm, cspec, t, d)
+      check_json(rec, cm, cspec, t, d, strings=(j == 0 or tier != 'quick'))
+      check_dict_content(rec, cm, cspec, t, d, rs,
+                         [c for i, c in enumerate(COMBOS) if i % 2 == j], tag)
+      # 90 = 3 key types x 5 value types x 6: step 7 walks through every
+      # key type, value type and (multi key, inactive) pair
+      check_dict_roundtrip(rec, cm, cspec, t, d,
+                           [c for i, c in enumerate(COMBOS)
+                            if tier != 'quick' or i % 7 == j], tag)
+  return rec.result()
+
+
+# ---------------------------------------------------------------------------
+# Specifications derived from hyper values (pg.dna_spec)
+# ---------------------------------------------------------------------------
+# "For every specification": the specifications above are written with the
+# pg.geno API; the ones users meet most are derived from a search space of
+# hyper values, where the literal values are texts the library makes up from
+# the candidates.  Whatever these texts are, each dictionary view of a DNA must
+# rebuild the DNA.  (form, candidates source, candidates hold ints, model of
+# the decision points below `a` / `b`, two candidates read the same)
+HYPER_FORMS = [
+    ('int', '[1, 2, 3]', True, None, False),
+    ('float', '[0.1 + 0.2, 1e-07, 2.0]', False, None, False),
+    ('str-short', "['a', 'b (c)', 'd/e']", False, None, False),
+    ('str-long', "['s' * 130, 't' * 121, 'u' * 120]", False, None, False),
+    ('dict-long-format',
+     "[dict(x=1, y='q' * 150), dict(x=2, y='q' * 150), dict(x=3, y='r')]",
+     False, None, False),
+    ('container', "[dict(a=1), [1, 2], None]", False, None, False),
+    ('nested-hyper-long',
+     "[pg.oneof(['x' * 130, 'y']), 'k', "
+     "pg.manyof(2, ['u', 'v', 'w' * 125], distinct=True, sorted=False)]",
+     False, [SP(leaf(2)), C, SP(leaf(3, 2, True, False))], False),
+    # candidates whose texts start alike for more than any display width
+    ('long-common-prefix', "['s' * 130 + '1', 's' * 130 + '2', 't']", False,
+     None, True),
+]
+
+
+def drv_hyper_specs(tier, seed):
+  rec = Recorder(
+      PROP, 'dictionary views are lossless for specifications derived from '
+      'hyper values',
+      scope=('pg.dna_spec(pg.Dict(a=pg.oneof(C), b=pg.manyof(2, C, '
+             'distinct=False, sorted=False))) for 8 classes of candidate '
+             'lists C (ints, floats, short strings, strings of 120..130 '
+             'characters, dicts with a long text form, containers and None, '
+             'nested oneof/manyof with long candidates, long strings with a '
+             'common prefix of 130 characters) x members (quick 3, thorough '
+             'all up to 40): from_dict(to_dict()) under 3 key types x 5 value '
+             'types with a rotating (multi_choice_key, include_inactive) pair '
+             '(thorough: all 90 combinations), parameters()/from_parameters '
+             'with and without literal values'))
+  r = rng(seed, 'c12.hyper')
+  cap = 3 if tier == 'quick' else 40
+  t0 = time.process_time()
+  budget = 15 if tier == 'quick' else 200
+  for form, csrc, ints, cands, dup in HYPER_FORMS:
+    if time.process_time() - t0 > budget:
+      break
+    cands = cands or [C, C, C]
+    m = SP(ONE(cands), CH(2, cands, False, False))
+    ssrc = (f'pg.dna_spec(pg.Dict(a=pg.oneof({csrc}), b=pg.manyof(2, {csrc}, '
+            'distinct=False, sorted=False)))')
+    pre = f'import pyglove as pg\nD = pg.DNA\nspec = {ssrc}\n'
+    tag = f'/hyper-candidates={form}'
+    try:
+      spec = eval(ssrc, {'pg': pg})  # pylint: disable=eval-used
+    except Exception as e:  # pylint: disable=broad-except
+      rec.case(f'dna_spec/builds{tag}', ssrc, False,
+               f'{type(e).__name__}: {e}'[:300], pre)
+      continue
+    for j, t in enumerate(sample_members(m, cap, r)):
+      base = pre + f'd = {bind_src(t)}\n'
+      try:
+        d = mk(t).use_spec(spec)
+      except Exception as e:  # pylint: disable=broad-except
+        rec.case(f'use_spec/accepts{tag}', (form, t), False,
+                 f'use_spec refused {t!r}: {type(e).__name__}: {e}'[:300], base)
+        continue
+      pairs = [(mkk, inc) for mkk in MULTI_KEYS for inc in (False, True)]
+      if tier == 'quick':
+        pairs = [pairs[j % 6]]
+      for kt in KEY_TYPES:
+        for vt in VALUE_TYPES:
+          for mkk, inc in pairs:
+            ul = vt == 'literal' and ints
+            call = (f'd.to_dict(key_type={kt!r}, value_type={vt!r}, '
+                    f'multi_choice_key={mkk!r}, '
+                    f'include_inactive_decisions={inc})')
+            try:
+              back = pg.DNA.from_dict(dict(d.to_dict(kt, vt, mkk, inc)), spec,
+                                      use_ints_as_literals=ul)
+              ok = same(shape(back), t) and back == d
+              msg = f'from_dict({call}) = {shape(back)!r}, want {t!r}'
+            except Exception as e:  # pylint: disable=broad-except
+              ok = False
+              msg = f'from_dict({call}) raised {type(e).__name__}: {e}'[:400]
+            rec.case(DUP_ID if dup and vt == 'literal' else
+                     f'from_dict/roundtrip/value={vt}{tag}',
+                     (form, t, kt, mkk, inc), ok, msg,
+                     base + f'x = D.from_dict(dict({call}), spec'
+                     + (', use_ints_as_literals=True' if ul else '')
+                     + ')\nassert x == d, x')
+      for use_lit in (False, True):
+        call = f'd.parameters(use_literal_values={use_lit})'
+        try:
+          back = pg.DNA.from_parameters(
+              dict(d.parameters(use_literal_values=use_lit)), spec,
+              use_literal_values=use_lit)
+          ok = same(shape(back), t) and back == d
+          msg = f'from_parameters({call}) = {shape(back)!r}, want {t!r}'
+        except Exception as e:  # pylint: disable=broad-except
+          ok = False
+          msg = f'from_parameters({call}) raised {type(e).__name__}: {e}'[:400]
+        rec.case(f'parameters/roundtrip/use_literal_values={use_lit}{tag}',
+                 (form, t), ok, msg,
+                 base + f'x = D.from_parameters(dict({call}), spec, '
+                 f'use_literal_values={use_lit})\nassert x == d, x')
   return rec.result()
 
 
@@ -1859,8 +2092,8 @@ def drv_entry_points(tier, seed):
 
 
 DRIVERS = [drv_numbers_and_json, drv_dict_views, drv_alignment,
-           drv_literal_forms, drv_operator_matrix, drv_binding_history,
-           drv_entry_points]
+           drv_literal_forms, drv_hyper_specs, drv_operator_matrix,
+           drv_binding_history, drv_entry_points]
 
 
 def replay(rec):
